@@ -97,7 +97,7 @@ IdxChoices(dd, lvl) ==
 
 \* ---- variants: explicit sizes (bit 0) and NUMA indexes (bit 1) ----
 UnitSeq == <<"", "kB", "KiB", "MB", "MiB", "GB", "GiB", "TB", "TiB">>
-SizeNo(n) == <<(n + 1) * 512, UnitSeq[(n % 9) + 1]>>
+SizeNo(n) == <<((n % 100) + 1) * 512, UnitSeq[(n % 9) + 1]>>
 WithSizes(dd) ==
   [dd EXCEPT !.rattr = <<3, "GB">>,
              !.ratt = [k \in DOMAIN dd.ratt |-> [dd.ratt[k] EXCEPT !.size = SizeNo(k + 4)]],
@@ -172,9 +172,12 @@ ExportInv == st = "loaded" =>
   /\ \A f \in 0..15 : ~Has(f, F_V1) => MustSucceed(abs, f)
 
 \* ---- emission ----
+RECURSIVE WSum(_, _)
+WSum(v, k) == IF k > Len(v) THEN 0 ELSE k * v[k] + WSum(v, k + 1)
+IdxFinger(idx) == IF idx.k = "list" THEN WSum(idx.v, 1) ELSE IF idx.k = "loops" THEN WSum([k \in DOMAIN idx.v |-> idx.v[k][1]], 1) + 1 ELSE Len(idx.v)
 RECURSIVE Finger(_, _)
 Finger(lv, i) == IF i > Len(lv) THEN 0
-                 ELSE (lv[i].T + 2) * 7 + lv[i].ar * 3 + Len(lv[i].att) * 5 + Len(lv[i].idx.v) + Len(lv[i].size) + 3 * Finger(lv, i + 1)
+                 ELSE (lv[i].T + 2) * 7 + lv[i].ar * 3 + Len(lv[i].att) * 5 + IdxFinger(lv[i].idx) + Len(lv[i].size) + 3 * Finger(lv, i + 1)
 Emit == (st = "done" /\ (Finger(d.lv, Deep + 1) + Len(d.ratt) + Len(pert)) % NStripes = Stripe)
            => PrintT(<<"BEH", ToJson([d |-> d, text |-> Render(d), pert |-> pert])>>)
 =============================================================================
